@@ -276,11 +276,12 @@ Proof.
   - (* register *)
     apply check_acc in H. destruct H as [_ H]. destruct (live_entry s ty).
     + apply check_acc in H. destruct H as [_ H]. injection H as <-. eauto.
-    + apply check_acc in H. destruct H as [_ H].
+    + apply check_acc in H. destruct H as [_ H]. apply check_acc in H. destruct H as [_ H].
       apply bind_acc in H. destruct H as (s1 & H1 & H). apply bind_acc in H. destruct H as (s2 & H2 & H).
       injection H as <-. eapply refs_reg_install; eauto.
   - (* replace *)
     apply check_acc in H. destruct H as [_ H]. apply check_acc in H. destruct H as [_ H].
+    apply check_acc in H. destruct H as [_ H].
     apply bind_acc in H. destruct H as (s1 & H1 & H). apply bind_acc in H. destruct H as (s2 & H2 & H).
     injection H as <-. eapply refs_reg_install; eauto.
   - (* unregister *)
